@@ -151,6 +151,8 @@ func (q *Queue) Add(elem *queue.Elem) (err error) {
 			if dropErr == queue.ErrDropExpiredInflight {
 				q.notifier.NotifyInflightAdded(-1)
 				q.current--
+				// the element is gone: a late acknowledgement of its identifier must not remove it again
+				delete(q.readCache, dropElem.ID())
 			}
 			if dropBytes == nil {
 				q.notifier.NotifyDropped(elem, dropErr)
